@@ -351,7 +351,7 @@ void h_work_event(void)
 	__CPROVER_assert(g_comp_order == n0 && g_comp_while_locked == 0, "[C12] every queued completion runs exactly once in the owner, in order, without the pool lock");
 	__CPROVER_assert(!g_lock_held, "[C12,C14] lock released");
 	if (verif_in.shutting)
-		__CPROVER_assert(IFF(g_pool_freed == 1, verif_in.relock_started == 0 && verif_in.relock_done_empty), "[C13] a released pool is freed exactly when no worker is left and no completion is undelivered (tested under the lock)");
+		__CPROVER_assert(IFF(g_pool_freed == 1, verif_in.relock_started == 0 && verif_in.relock_done_empty), "[C13,C12] a released pool is freed exactly when no worker is left and no completion is undelivered (tested under the lock): no completion is lost");
 	else
 		__CPROVER_assert(g_pool_freed == 0, "[C13] a pool in use is never freed");
 	__CPROVER_assert(IMPLIES(g_pool_freed, g_ev_unreg == 2 && g_frees == 1), "[C13] freeing drops both of the pool's references on the owner's loop");
